@@ -4,7 +4,7 @@
    over Generated/K_p8png.v, K_p8png_codec.v, K_compress.v.  The theorems are about the pixel rows handed to /
    received from pypng; the PNG container itself (pypng + zlib) is outside the model and is observed at run
    time with an independent PNG reader (that clause is partial). *)
-From PV Require Import Base.Prelude Base.PySlice Generated.K_p8png Model.Compress Model.PngStego Model.P8Png
+From PV Require Import Base.Prelude Base.PySlice Generated.K_p8png Model.Compress Model.PngStego Model.P8Png Instances.HoldsC04
   Proofs.CompressProofs Proofs.P8PngProofs.
 
 (* two bits per channel, order A R G B from the most significant pair: what is written into one pixel is read
@@ -78,3 +78,17 @@ Theorem C04_picodata_closed_form : forall width height planes rows,
   picodata_of_rows_fast width height planes rows = picodata_of_rows width height planes rows.
 Proof. exact picodata_fast_eq. Qed.
 Print Assumptions C04_picodata_closed_form.
+
+(* the extracted monitor's predicates (Instances/HoldsC04.v, built from the format description only) hold of the
+   model for every cart and label image in the domain: the independent reading of the written pixels gives back
+   every region, the version and the code text, the label's upper six bits are kept, and the cart read back
+   equals the cart written up to the reader's normalisation *)
+Theorem C04_holds : forall c img,
+  wf_cart c -> cart_bytes c -> wf_img img ->
+  fits (c_code c) -> no_nul (c_code c) -> clean (c_code c) = true -> c_code c <> [58; 99; 58] ->
+  exists rows c', write_png_pixels c 4 img = Ok rows /\ read_png_pixels 160 205 4 rows = Ok c' /\
+    holds_C04_image (c_gfx c) (c_map c) (c_gff c) (c_music c) (c_sfx c) (c_code c) (c_version c) img rows = true /\
+    holds_C04_readback (c_gfx c) (c_map c) (c_gff c) (c_music c) (c_sfx c) (c_code c) (c_version c)
+                       (c_gfx c') (c_map c') (c_gff c') (c_music c') (c_sfx c') (c_code c') (c_version c') = true.
+Proof. exact holds_model. Qed.
+Print Assumptions C04_holds.
